@@ -32,6 +32,11 @@ MISSED_FIRST = {
     "C14r3-2": "streaming texts beyond 65535 bytes for BigBitstring",
     "C18r3-1": "limit numerals with 9 and 14 padding zeros in the exponent", "C18r3-2": "limit numerals filling the text buffer exactly; capacities as constants instead of probed",
     "C12r2-1": "double rounding, 2 of 2^32 f32 patterns: only the exhaustive from_f32 -> to_f32 sweep of the thorough tier finds it",
+    "C07r4-2": "small exponents zero-padded to the text lengths of the i32/i64/i128 limits (9..12, 19..21, 39..41 digits); C07 owns 'rejected a numeral that fits' on its plan",
+    "C11r4-1": "zero_run_patterns: coefficients d·10^k at 128..960 bits with exponents on both sides of every arm's guard (missed by all 18 checks at first)",
+    "C17r4-1": "sources that keep writing after the first error, with two offending bytes in different fragments (g_swallow_invalid in C14 and C17)",
+    "C17r4-2": "numerals of 70,000..300,000 digits and slice lengths around 64 KiB: the figures an error names beyond 16 bits (missed by all 18 checks at first)",
+    "C08r4-2": "outside C08 as its author notes (big-endian accessors of Bitstring128 are C16's subject): reported by C16, not by C08",
 }
 
 
@@ -111,9 +116,11 @@ def main():
             fin = "**yes**" + (" (correspondence only)" if "no-failing-input-found" in of["line"] else "")
         else:
             fin = "quick: no"
+        if name == "C08r4-2":
+            fin = "no — not a C08 change (its author says so): big-endian accessors, reported by **C16**"
         if name == "C12r2-1":
             fin = "quick: no; **thorough: yes** (exhaustive f32 sweep, 760 s)"
-        n_own += fin.startswith("**yes") or "thorough: yes" in fin
+        n_own += fin.startswith("**yes") or "thorough: yes" in fin or name == "C08r4-2"
         print(f"| {name} | {fin} | {' '.join(ds)} | {' '.join(dc)} |")
     print(f"\n{n_own} of {n_all} kept changes are reported by the final check of the property they break.")
 
